@@ -164,6 +164,11 @@ func (f *fetcher) fetchUpstream(req *http.Request, key cache.CacheKey, clientHd 
 	if err != nil {
 		resp.Body.Close()
 		slog.Error("Error handling upstream response after cache miss", "url", req.URL, "error", err)
+		if !errors.Is(err, ErrSendRequestFailed) {
+			// The origin answered; only storing, refreshing or re-opening the entry failed (cache full,
+			// I/O error, empty body, entry evicted meanwhile). Serve the request uncached instead of failing it.
+			return fetchResult{}, ErrNotCacheable
+		}
 		return fetchResult{}, err
 	}
 
@@ -298,7 +303,12 @@ func (f *fetcher) dedupFetch(req *http.Request, key cache.CacheKey, clientHd *he
 		slog.Debug("Request can't be coalesced, fetching upstream...")
 		metrics.Global.Requests.NonCoalescedRequests.Increment()
 
-		return f.fetchUpstream(req, key, clientHd)
+		fetched, err = f.fetchUpstream(req, key, clientHd)
+		if errors.Is(err, ErrNotCacheable) {
+			slog.Debug("Response could not be stored, falling back to direct fetch", "url", req.URL)
+			return f.fetchDirectlyFromUpstream(req)
+		}
+		return fetched, err
 	}
 
 	originalClientHd := *clientHd // Copy the original client headers so the shared requests don't get a modified version
